@@ -19,7 +19,7 @@ RULE = (
 )
 ASSUMPTIONS = ["histories are encoded as data (text + operation list) rather than a Hypothesis RuleBasedStateMachine so that the replay file is library-free"]
 FIELDS = ["resolved_case_name_short", "resolved_case_name"]
-_PLANTED = re.compile(r"([A-Z][\w.'&-]*(?: [A-Z][\w.'&-]*)*) at \d")
+_PLANTED = re.compile(r"((?:[A-Z][\w.'&-]*)(?: (?:v\.? )?[A-Z][\w.'&-]*)*) at \d")
 _CAPS = re.compile(r"[A-Z][\w'&-]{2,}")
 
 
@@ -136,21 +136,29 @@ def evaluate(case):
 
 @st.composite
 def _doc_with_refs(draw):
+    """Documents in which a small pool of names is reused for parties and for 'Name at N' mentions, so that
+    reference citations actually occur (single names, two-word names whose suffix is a party, 'A v. B at N')."""
+    pool = draw(st.lists(st.sampled_from(legal.NAMES), min_size=2, max_size=4, unique=True))
+    nm = st.sampled_from(pool)
     parts = []
-    n = draw(st.integers(2, 7))
+    n = draw(st.integers(2, 8))
     for _ in range(n):
-        k = draw(st.integers(0, 9))
+        k = draw(st.integers(0, 11))
         if k < 3:
-            parts.append(draw(legal.named()))
+            parts.append(f"{draw(nm)} v. {draw(nm)}, {draw(legal.full())}")
         elif k < 4:
             parts.append(draw(legal.short_parallel()))
         elif k < 5:
-            parts.append(draw(legal.short()))
-        elif k < 7:
-            parts.append(draw(legal.ref()))
+            parts.append(f"{draw(nm)}, {draw(legal._num)} {draw(legal.reporter())} at {draw(legal._num)}")
         elif k < 8:
+            parts.append(f"{draw(nm)} at {draw(legal._num)}")
+        elif k < 9:
+            parts.append(f"{draw(nm)} {draw(nm)} at {draw(legal._num)}")
+        elif k < 10:
+            parts.append(f"{draw(nm)} v. {draw(nm)} at {draw(legal._num)}")
+        elif k < 11:
             # a 'Name at N' mention whose number doubles as the volume of a following citation
-            parts.append(f"{draw(legal.ref())} {draw(legal.reporter())}{draw(st.sampled_from([' ', ', ']))}{draw(legal._num)}")
+            parts.append(f"{draw(nm)} at {draw(legal._num)} {draw(legal.reporter())}{draw(st.sampled_from([' ', ', ']))}{draw(legal._num)}")
         else:
             parts.append(draw(legal.fragment(hostile=False)))
         parts.append(draw(st.sampled_from(legal.SEPARATORS + ["", " ", ", ", " ("])))
